@@ -14,7 +14,7 @@ import (
 )
 
 var reMatchAtom = regexp.MustCompile(`\(\*regexp\.Regexp\)\.MatchString\(g:psatoken\.([A-Za-z0-9_]+),`)
-var reIsEmpty = regexp.MustCompile(`psatoken\.ISwComponents\.IsEmpty#[A-Za-z0-9_\[\]\*\./]+\.t\d+@\d+`)
+var reIsEmpty = regexp.MustCompile(`psatoken\.ISwComponents\.IsEmpty#[A-Za-z0-9_\[\]\*\./]+\.t\d+@\d+(~\d+)?`)
 
 // regexClass classifies the language of a package-level *regexp.Regexp
 // (initialised once from a constant pattern) via E9.
@@ -83,6 +83,9 @@ func (f fnRenamer) Replace(s string) string { return f(s) }
 func cubeOfR(st *State, ren func(string) string) Cube {
 	c := Cube{Terms: map[string]iset{}, Atoms: map[string]bool{}}
 	for k, v := range st.terms {
+		if derivedExact(st, k) {
+			continue // its restriction is already in the parent term (pre-image refinement)
+		}
 		k = ren(k)
 		if prev, ok := c.Terms[k]; ok {
 			v = inter(prev, v)
